@@ -28,6 +28,8 @@ const FLAT_THRESHOLD: usize = 16 * 1024; // 16 KiB
 const V2_SOCKET_TYPE_OFFSET: usize = SIGNATURE_LENGTH + 1; // 11
 /// Total length of a ZMTP/2.0 greeting header: signature + revision + socket-type.
 const V2_GREETING_LENGTH: usize = SIGNATURE_LENGTH + 2; // 12
+/// Maximum number of frames a `FrameBatch` (one logical multipart message) can hold.
+const MAX_FRAMES_PER_MESSAGE: usize = 255;
 
 /// Negotiated ZMTP wire-protocol version for a connection.
 #[derive(Debug, Clone, Copy, PartialEq, Eq)]
@@ -742,6 +744,17 @@ impl ZmtpEngine {
       }
 
       let is_more = msg.is_more();
+      // A FrameBatch holds at most 255 frames; a longer multipart message from the peer is a
+      // protocol violation, not a reason to panic in `FrameBatch::push`.
+      if self.partial_batch.len() >= MAX_FRAMES_PER_MESSAGE {
+        self.phase = ZmtpPhase::Closed;
+        out
+          .app_actions
+          .push(AppAction::PeerError(ZmqError::ProtocolViolation(
+            "Multipart message exceeds 255 frames".into(),
+          )));
+        return;
+      }
       self.partial_batch.push(msg);
       if !is_more {
         let batch = std::mem::replace(&mut self.partial_batch, FrameBatch::new());
